@@ -20,6 +20,8 @@ static const std::vector<Xf>& xforms() {
       {"scale3", 3, 0, 0, 3, 0, 0, false},
       {"scale7", 7, 0, 0, 7, 0, 0, false},
       {"rot180+translate", -1, 0, 0, -1, 1000, 2000, false},
+      {"scale700000001", 700000001, 0, 0, 700000001, 0, 0, false},   // edges of 10^9..10^11 units: products of two coordinate differences pass 2^63
+      {"scale2^31", (i64)1 << 31, 0, 0, (i64)1 << 31, 0, 0, false},
   };
   return T;
 }
